@@ -53,6 +53,19 @@ CHECKS = {
             'they are labelled with and one real periodic-loop pass is checked on the wire.',
             'Single subscriber; content comparison goes through the library reader (versions, handles, grouping through lxml only); '
             'ordering under concurrent writers is covered by the schedule-exploration part when present in the evidence.', '3/C04'),
+    'C06': ('H+S', 'exhaustive enumeration of delivery sequences (each report 0, 1 or 2 times, any order) on the real consumer endpoint; id-change/reload histories; preemption-bounded schedule exploration of initial load / reload against deferred report delivery',
+            '(a) For 10 (thorough 16) provider histories the notifications are captured on the wire and every delivery sequence in which '
+            'each of the first 4 (thorough 5) messages occurs 0, 1 or 2 times in any order, of length <= n+1 (plus every single drop, '
+            'duplicate, adjacent swap and replay for longer wire lists) is posted to the real consumer endpoint (message converter, '
+            'dispatcher, subscription, ConsumerMdib); after every delivery MdibVersion and every entity version are non-decreasing, a '
+            'stale or duplicated report changes nothing, the lookups pass the index scan, every state held is one the provider published '
+            'for that handle, nothing escapes the endpoint, and complete in-order delivery yields the exact mirror. (b) 81 histories with a '
+            'SequenceId and/or InstanceId change: nothing changes until reload_all, the change is signalled, afterwards exact mirror again. '
+            '(c) init_mdib / reload_all racing with a writing provider and deferred in-order delivery (three real threads under the baton '
+            'scheduler; points at the mdib, transaction and notification-buffer locks and at queue operations; preemption bound 1, one '
+            'scenario with bound 2; thorough: bound 3 and all locks): at quiescence exact mirror, no exception, consistent lookups.',
+            'Consumer state is restored between delivery sequences from deep copies of the tables (self-checked); provider restart is '
+            'modelled by assigning new ids; (c) models the deferred dispatcher by a FIFO between endpoint and a delivery thread.', '3/C06'),
     'C07': ('S', 'stateless preemption-bounded schedule exploration (CHESS-style iterative context bounding) of real request and writer threads under a cooperative baton scheduler; scheduling points at every lock acquire/release',
             '18 scenarios of 1-2 Get request threads (GetMdib, GetMdDescription all/one handle, GetMdState all/some handles, '
             'GetContextStates all/one descriptor - real request bytes through the real provider dispatch chain and handlers) against '
